@@ -63,8 +63,13 @@ class ExceptionUtil(object):
     @classmethod
     def describe(cls, exception, use_traceback=False, prefix=""):
         # -- NORMAL CASE:
+        try:
+            exception_text = u"{0}".format(exception)
+        except Exception:   # pylint: disable=broad-except
+            # -- ROBUSTNESS: exception.__str__() raises an exception itself.
+            exception_text = u"<exception str() failed>"
         text = u"{prefix}{0}: {1}\n".format(exception.__class__.__name__,
-                                            exception, prefix=prefix)
+                                            exception_text, prefix=prefix)
         if use_traceback:
             exc_traceback = cls.get_traceback(exception)
             if exc_traceback:
